@@ -67,8 +67,10 @@ impl Prefixes {
 }
 #[verifier::external_body]
 fn ll_into_vec<T>(l: LinkedList<T>) -> (r: Vec<T>) ensures r@ == l@ { unimplemented!() }
+// the characters a horizontal rule is drawn with (contracts proved in unit BH)
+uninterp spec fn border_str<T>(b: BorderHoriz<T>) -> Seq<char>;
 #[verifier::external_body]
-fn border_to_string<T>(b: &BorderHoriz<T>) -> (r: String) ensures sw(r@) == b.w, str_some(r@) { unimplemented!() }
+fn border_to_string<T>(b: &BorderHoriz<T>) -> (r: String) ensures sw(r@) == b.w, str_some(r@), r@ == border_str(*b) { unimplemented!() }
 // A5/A2: a short string is narrower than 2^33 columns (each character is at most 2 columns wide)
 #[verifier::external_body]
 proof fn axiom_short_width(s: Seq<char>) requires short(s) ensures sw(s) <= 0x2_0000_0000 {}
@@ -97,6 +99,42 @@ spec fn emitted<A>(base: Seq<CItem<Vec<A>>>, ignorable: bool, fw: Option<Wrapped
         fw matches Some(w1) && exists|mt: Vec<A>, ct: Vec<A>| #[trigger] appended_b(base, w1.text@, w1.line.v@, w1.word.v@, kept(filt(fs, fs.len() as int, text)), mt, ct)
             && (if pre { mt@.drop_last() == stack && ct@.drop_last() == stack && mt@.len() == stack.len() + 1 && ct@.len() == stack.len() + 1 } else { mt@ == stack && ct@ == stack })
     }
+}
+// ---- renderer-level content (C03, C09, C14): what the finished lines of a renderer carry ------------------------------------------
+// the content items of the text lines, in order (border lines carry no document content)
+spec fn rl_elt<T>(l: RenderLine<T>) -> Seq<CItem<T>> { match l { RenderLine::Text(t) => flat(t.v@), RenderLine::Line(_) => Seq::empty() } }
+spec fn rl_flat<T>(s: Seq<RenderLine<T>>) -> Seq<CItem<T>> decreases s.len() { if s.len() == 0 { Seq::empty() } else { rl_flat(s.drop_last()) + rl_elt(s.last()) } }
+proof fn lemma_rl_flat_concat<T>(a: Seq<RenderLine<T>>, b: Seq<RenderLine<T>>)
+    ensures rl_flat(a + b) =~= rl_flat(a) + rl_flat(b),
+    decreases b.len()
+{
+    if b.len() == 0 { assert(a + b =~= a); } else {
+        assert((a + b).drop_last() =~= a + b.drop_last());
+        lemma_rl_flat_concat(a, b.drop_last());
+    }
+}
+proof fn lemma_rl_flat_push<T>(a: Seq<RenderLine<T>>, l: RenderLine<T>)
+    ensures rl_flat(a.push(l)) =~= rl_flat(a) + rl_elt(l),
+{ assert(a.push(l).drop_last() =~= a); }
+proof fn lemma_lines_flat_push<T>(a: Seq<TaggedLine<T>>, l: TaggedLine<T>)
+    ensures lines_flat(a.push(l)) =~= lines_flat(a) + flat(l.v@),
+{ assert(a.push(l).drop_last() =~= a); }
+// the same at renderer level (L3): the renderer's view (finished lines, pending markers, open block) gains exactly those characters at its end
+spec fn emitted_view<A>(v0: Seq<CItem<Vec<A>>>, v1: Seq<CItem<Vec<A>>>, fs: Seq<TextFilter>, text: Seq<char>, stack: Seq<A>, pre: bool) -> bool {
+    exists|mt: Vec<A>, ct: Vec<A>, acc: Seq<CItem<Vec<A>>>| #[trigger] tagged_by(acc, kept(filt(fs, fs.len() as int, text)), mt, ct) && v1 =~= v0 + acc
+        && (if pre { mt@.drop_last() == stack && ct@.drop_last() == stack && mt@.len() == stack.len() + 1 && ct@.len() == stack.len() + 1 } else { mt@ == stack && ct@ == stack })
+}
+// what append_subrender adds for one line of the nested renderer: its prefix, then the line (a rule of the nested renderer as its characters)
+spec fn pref_elt<A>(l: RenderLine<Vec<A>>, prefix: Seq<char>, tag: Vec<A>) -> Seq<CItem<Vec<A>>> {
+    flat_str(prefix, tag) + (match l { RenderLine::Text(o) => flat(o.v@), RenderLine::Line(b) => flat_str(border_str(b), tag) })
+}
+// ... and for all of them: line i gets prefix number k0 + i
+spec fn pref_view<A>(ls: Seq<RenderLine<Vec<A>>>, p: Prefixes, k0: int, tag: Vec<A>) -> Seq<CItem<Vec<A>>> decreases ls.len() {
+    if ls.len() == 0 { Seq::empty() } else { pref_view(ls.drop_last(), p, k0, tag) + pref_elt(ls.last(), p.at(k0 + ls.len() - 1), tag) }
+}
+// the nested renderer `ov` yields lines `ol` that carry all its characters (`rest`: markers no text line follows), and the parent's view gains them, prefixed
+spec fn sub_appended<A>(v0: Seq<CItem<Vec<A>>>, v1: Seq<CItem<Vec<A>>>, ov: Seq<CItem<Vec<A>>>, ol: Seq<RenderLine<Vec<A>>>, rest: Seq<CItem<Vec<A>>>, p: Prefixes, tg: Vec<A>, stack: Seq<A>) -> bool {
+    only_frags(rest) && ns(rl_flat(ol)) + rest =~= ov && tg@ == stack && v1 =~= v0 + ns(pref_view(ol, p, p.pos(), tg))
 }
 proof fn lemma_empty_prefix() ensures sw(Seq::<char>::empty()) == 0, str_some(Seq::<char>::empty()), short(Seq::<char>::empty()) {}
 // A5: the result of a text filter (at most one combining mark per character) is still short
@@ -370,6 +408,13 @@ impl<D: TextDecorator> SubRenderer<D> {
         &&& no_str(self.pending_frags@) && all_some(self.pending_frags@)
         &&& lines_ok(self.lines@, self.width, loose(self.options))
     }
+    // everything the renderer holds, in output order and without the engine's spaces: finished lines, pending fragment markers, open block
+    spec fn rview(&self) -> Seq<CItem<Vec<D::Annotation>>> {
+        ns(rl_flat(self.lines@)) + flat(self.pending_frags@) + self.wpart()
+    }
+    spec fn wpart(&self) -> Seq<CItem<Vec<D::Annotation>>> { match self.wrapping { Some(w) => all_ns(w.text@, w.line.v@, w.word.v@), None => Seq::empty() } }
+    // the open block (if any) holds at least one character, so closing it yields a line
+    spec fn flushable(&self) -> bool { self.wrapping is Some ==> !only_frags(self.wpart()) }
     // A5 (boundary): accumulated widths are far from overflowing when a public operation starts
     spec fn wtotal(&self) -> int { match self.wrapping { Some(w) => w.total(), None => self.width as int } }
     // public operations start with `headroom`; each inline text of a short string uses at most 2^34 of it
@@ -439,6 +484,8 @@ impl<D: TextDecorator> SubRenderer<D> {
             // … and stay pending across border lines //@w
             line is Line ==> final(self).pending_frags@ == old(self).pending_frags@ && final(self).lines@.last() == line, //@w @C14 #border_keeps_markers_pending
             old(self).pending_frags@.len() == 0 ==> final(self).pending_frags@.len() == 0 && final(self).lines@.last() == line, //@w @C03 #line_added_verbatim
+            // renderer-level view: a text line is added after everything finished or pending so far, a border line adds no content //@w
+            final(self).rview() =~= ns(rl_flat(old(self).lines@)) + flat(old(self).pending_frags@) + ns(rl_elt(line)) + old(self).wpart(), //@w @C03 @C14 #line_content_added_once
     {
         if !self.pending_frags.is_empty() {
             match line {
@@ -478,12 +525,26 @@ impl<D: TextDecorator> SubRenderer<D> {
                         tl.push(part);
                     }
                     proof { assert(tv.take(tv.len() as int) =~= tv); } //@w
+                    proof { //@w
+                        lemma_rl_flat_push(self.lines@, RenderLine::Text(tl)); //@w
+                        lemma_ns_concat(rl_flat(self.lines@), flat(tl.v@)); //@w
+                        lemma_ns_concat(flat(pf), flat(tv)); //@w
+                        lemma_no_str_flat(pf); //@w
+                        lemma_flat_empty_te::<Vec<D::Annotation>>(); //@w
+                        assert(self.pending_frags@ =~= Seq::<TaggedLineElement<Vec<D::Annotation>>>::empty()); //@w
+                    } //@w
                     self.lines.push_back(RenderLine::Text(tl));
                     return;
                 }
                 RenderLine::Line(..) => (),
             }
         }
+        proof { //@w
+            lemma_rl_flat_push(self.lines@, line); //@w
+            lemma_ns_concat(rl_flat(self.lines@), rl_elt(line)); //@w
+            lemma_flat_empty_te::<Vec<D::Annotation>>(); //@w
+            if self.pending_frags@.len() == 0 { assert(self.pending_frags@ =~= Seq::<TaggedLineElement<Vec<D::Annotation>>>::empty()); } //@w
+        } //@w
         self.lines.push_back(line);
     }
 //@end
@@ -502,6 +563,12 @@ impl<D: TextDecorator> SubRenderer<D> {
             old(self).options.allow_width_overflow ==> r.is_ok(), //@w @C11 #flush_wrapping_overflow_ok
             final(self).lines@.len() >= old(self).lines@.len() && final(self).lines@.take(old(self).lines@.len() as int) =~= old(self).lines@, //@w @C03 #flush_wrapping_keeps_lines
             forall|i: int| old(self).lines@.len() <= i < final(self).lines@.len() ==> short_line(#[trigger] final(self).lines@[i], old(self).width), //@w @C02 @C11 #flushed_lines_fit_block
+            // closing the block moves its content to the finished lines: every character and every marker, in order, once (C03, C09, C14) //@w
+            r.is_ok() && (final(self).lines@.len() > old(self).lines@.len() || old(self).wrapping is None) ==> final(self).rview() =~= old(self).rview(), //@w @C03 @C09 @C14 #block_content_reaches_lines
+            r.is_ok() && old(self).flushable() ==> final(self).rview() =~= old(self).rview(), //@w @C03 @C09 @C14 #closing_block_keeps_view
+            // a block that yields no line held no character //@w
+            r.is_ok() && final(self).lines@.len() == old(self).lines@.len() && old(self).wrapping is Some ==> //@w @C03 #no_line_no_text
+                only_frags(all_ns((old(self).wrapping->Some_0).text@, (old(self).wrapping->Some_0).line.v@, (old(self).wrapping->Some_0).word.v@)), //@w @C03 #no_line_no_text
             // markers recorded after the last word of the block are not lost: they become pending for the next text line (C14) //@w
             r.is_ok() && (old(self).wrapping matches Some(w) && no_str(w.word.v@)) ==> //@w @C14 #trailing_markers_become_pending
                 final(self).pending_frags@.len() >= (old(self).wrapping->Some_0).word.v@.len() //@w
@@ -513,9 +580,23 @@ impl<D: TextDecorator> SubRenderer<D> {
                 assert forall|i: int| 0 <= i < frags@.len() implies elt_some(#[trigger] frags@[i]) by { assert(!(frags@[i] is Str)); } //@w
             } //@w
             let ghost w1 = w; //@w
+            let ghost w0 = old(self).wrapping->Some_0; //@w
+            let ghost p0 = old(self).pending_frags@; //@w
+            let ghost n0 = old(self).lines@.len() as int; //@w
+            proof { //@w
+                // the block's content is what stays in it plus the trailing markers taken out //@w
+                lemma_no_str_flat(frags@); //@w
+                lemma_flat_empty_te::<Vec<D::Annotation>>(); //@w
+                if no_str(w0.word.v@) { assert(w1.word.v@ =~= Seq::<TaggedLineElement<Vec<D::Annotation>>>::empty()); } //@w
+                assert(all_ns(w0.text@, w0.line.v@, w0.word.v@) =~= all_ns(w1.text@, w1.line.v@, w1.word.v@) + flat(frags@)); //@w
+                assert(self.lines@.skip(n0) =~= Seq::<RenderLine<Vec<D::Annotation>>>::empty()); //@w
+            } //@w
             let ls = w.into_lines()?;
             for l in it: ls
                 invariant //@w
+                    rl_flat(self.lines@.skip(n0)) =~= (if it.index@ > 0 { flat(p0) + lines_flat(ls@.take(it.index@)) } else { Seq::empty() }), //@w
+                    it.index@ > 0 ==> self.pending_frags@.len() == 0, it.index@ == 0 ==> self.pending_frags@ == p0, //@w
+                    n0 == old(self).lines@.len(), self.lines@.len() == n0 + it.index@, //@w
                     it.seq() == ls@, tag_ok::<Vec<D::Annotation>>(), self.sr_inv(), self.wrapping.is_none(), //@w
                     self.same_stacks(old(self)) && self.same_config(old(self)) && self.decorator == old(self).decorator && self.at_block_end == old(self).at_block_end, //@w
                     forall|i: int| 0 <= i < ls@.len() ==> (#[trigger] ls@[i]).wf() && fits(ls@[i], w1.width, w1.allow_overflow), //@w
@@ -529,6 +610,13 @@ impl<D: TextDecorator> SubRenderer<D> {
                 proof { assert(lc == ls@[it.index@]); assert(lc.len <= self.width || lc.len <= 2); } //@w
                 self.add_line(RenderLine::Text(l));
                 proof { //@w
+                    let k = it.index@; //@w
+                    assert(self.lines@ =~= before.push(self.lines@.last())); //@w
+                    assert(self.lines@.skip(n0) =~= before.skip(n0).push(self.lines@.last())); //@w
+                    lemma_rl_flat_push(before.skip(n0), self.lines@.last()); //@w
+                    assert(ls@.take(k + 1) =~= ls@.take(k).push(ls@[k])); //@w
+                    lemma_lines_flat_push(ls@.take(k), ls@[k]); //@w
+                    if k == 0 { assert(ls@.take(0) =~= Seq::<TaggedLine<Vec<D::Annotation>>>::empty()); lemma_flat_empty_te::<Vec<D::Annotation>>(); } //@w
                     assert(self.lines@.drop_last() == before); //@w
                     assert forall|i: int| 0 <= i < before.len() implies self.lines@[i] == before[i] by { assert(self.lines@.drop_last()[i] == self.lines@[i]); } //@w
                     assert(self.lines@.last() matches RenderLine::Text(t) && t.len == lc.len); //@w
@@ -543,8 +631,20 @@ impl<D: TextDecorator> SubRenderer<D> {
 
             vec_extend(&mut self.pending_frags, frags);
             proof { //@w
+                assert(ls@.take(ls@.len() as int) =~= ls@); //@w
+                if ls@.len() > 0 { //@w
+                    let fl = self.lines@; //@w
+                    assert(fl =~= fl.take(n0) + fl.skip(n0)); //@w
+                    lemma_rl_flat_concat(fl.take(n0), fl.skip(n0)); //@w
+                    lemma_ns_concat(rl_flat(old(self).lines@), rl_flat(fl.skip(n0))); //@w
+                    lemma_ns_concat(flat(p0), lines_flat(ls@)); //@w
+                    lemma_no_str_flat(p0); //@w
+                    assert(self.pending_frags@ =~= frags@); //@w @C14 #trailing_markers_become_pending
+                } //@w
+            } //@w
+            proof { //@w
                 let p = self.pending_frags@; //@w
-                assert(p.skip(p.len() - frags@.len()) =~= frags@); //@w
+                assert(p.skip(p.len() - frags@.len()) =~= frags@); //@w @C14 #trailing_markers_become_pending
                 assert(lines_ok(self.lines@, self.width, loose(self.options))); //@w
             } //@w
         }
@@ -564,6 +664,7 @@ impl<D: TextDecorator> SubRenderer<D> {
             r.is_ok() ==> final(self).wtotal() <= old(self).wtotal() + 0x4_0000_0000 || final(self).wtotal() <= old(self).width + 0x4_0000_0000, //@w @C01 #growth_bound
             final(self).lines@.len() >= old(self).lines@.len() && final(self).lines@.take(old(self).lines@.len() as int) =~= old(self).lines@, //@w @C03
             final(self).at_block_end == old(self).at_block_end, //@w
+            r.is_ok() && old(self).flushable() ==> final(self).rview() =~= old(self).rview(), //@w @C03 @C09 @C14 #closing_block_keeps_view
     {
         self.flush_wrapping()?;
         Ok(())
@@ -583,7 +684,9 @@ impl<D: TextDecorator> SubRenderer<D> {
             final(self).lines@.len() >= old(self).lines@.len() && final(self).lines@.take(old(self).lines@.len() as int) =~= old(self).lines@, //@w @C03
             r.is_ok() ==> !final(self).at_block_end && final(self).lines@.len() >= old(self).lines@.len() + 1, //@w @C12 #empty_line_added
             r.is_ok() ==> (final(self).lines@.last() matches RenderLine::Text(t) && t.len == 0), //@w @C12 #empty_line_is_blank
+            r.is_ok() && old(self).flushable() ==> final(self).rview() =~= old(self).rview(), //@w @C03 @C09 @C14 #blank_line_keeps_view
     {
+        proof { lemma_flat_empty_te::<Vec<D::Annotation>>(); } //@w
         html_trace!("add_empty_line()");
         self.flush_all()?;
         self.add_line(RenderLine::Text(TaggedLine::new()));
@@ -607,6 +710,7 @@ impl<D: TextDecorator> SubRenderer<D> {
             // a hard line break on a line that has no text yet gives a blank line (C12: blank lines are kept); otherwise it only ends the line //@w
             r.is_ok() && (old(self).wrapping matches Some(w) ==> w.wordlen == 0 && w.line.len == 0) ==> //@w @C12 #br_on_empty_line_gives_blank_line
                 final(self).lines@.len() >= old(self).lines@.len() + 1 && (final(self).lines@.last() matches RenderLine::Text(t) && t.len == 0), //@w @C12 #br_on_empty_line_gives_blank_line
+            r.is_ok() && old(self).flushable() ==> final(self).rview() =~= old(self).rview(), //@w @C03 @C09 @C14 #line_break_keeps_view
     {
         match &self.wrapping {
             None => self.add_empty_line(),
@@ -634,6 +738,7 @@ impl<D: TextDecorator> SubRenderer<D> {
             r.is_ok() ==> final(self).wtotal() <= old(self).wtotal() + 0x4_0000_0000 || final(self).wtotal() <= old(self).width + 0x4_0000_0000, //@w @C01 #growth_bound
             final(self).lines@.len() >= old(self).lines@.len() && final(self).lines@.take(old(self).lines@.len() as int) =~= old(self).lines@, //@w @C03
             r.is_ok() ==> !final(self).at_block_end, //@w
+            r.is_ok() && old(self).flushable() ==> final(self).rview() =~= old(self).rview(), //@w @C03 @C09 @C14 #block_start_keeps_view
     {
         html_trace!("start_block({})", self.width);
         self.flush_all()?;
@@ -677,12 +782,30 @@ impl<D: TextDecorator> SubRenderer<D> {
             // the marker is appended to the current word of the (possibly new) block: zero width, before any later text (C14) //@w
             final(self).wrapping matches Some(w2) && flat(w2.word.v@) =~= flat((match old(self).wrapping { Some(w) => w.word.v@, None => Seq::empty() })).push(CItem::Frag(fragname@)), //@w @C14 #marker_recorded_once
             old(self).wrapping.is_none() ==> (final(self).wrapping->Some_0).width == wrap_width_spec(old(self).options.wrap_width, old(self).width), //@w @C15 #marker_block_wrap_width
+            // renderer-level view: exactly one marker with that name is added, after everything recorded so far //@w
+            final(self).rview() =~= old(self).rview().push(CItem::Frag(fragname@)), //@w @C14 #marker_appended_to_view
     {
         use self::TaggedLineElement::FragmentStart;
         proof { lemma_flat_empty::<Vec<D::Annotation>>(); } //@w
 
         get_wrapping_or_insert::<D>(&mut self.wrapping, &self.options, self.width)
             .add_element(FragmentStart(fragname.to_string()));
+        proof { //@w
+            let w2 = self.wrapping->Some_0; //@w
+            let e = seq![CItem::<Vec<D::Annotation>>::Frag(fragname@)]; //@w
+            let ow = match old(self).wrapping { Some(w) => w.word.v@, None => Seq::empty() }; //@w
+            assert(flat(w2.word.v@) =~= flat(ow) + e); //@w
+            lemma_ns_concat(flat(ow), e); //@w
+            assert(e.drop_last() =~= Seq::<CItem<Vec<D::Annotation>>>::empty()); //@w
+            assert(ns(e.drop_last()) =~= Seq::<CItem<Vec<D::Annotation>>>::empty()); //@w
+            assert(!is_sp(e.last())); //@w
+            assert(ns(e) =~= e); //@w
+            if old(self).wrapping is None { //@w
+                lemma_all_ns_empty(w2.text@, w2.line.v@, ow); //@w
+                lemma_flat_empty_te::<Vec<D::Annotation>>(); //@w
+            } //@w
+            assert(self.wpart() =~= old(self).wpart() + e); //@w
+        } //@w
     }
 //@end
 //@item src/render/text_renderer.rs :: impl SubRenderer :: fn finalise
@@ -804,8 +927,17 @@ impl<D: TextDecorator> SubRenderer<D> {
             r matches Ok(ls) ==> lines_ok(ls@, self.width, loose(self.options)), //@w @C02 #renderer_lines_fit
             r matches Ok(ls) ==> ls@.len() >= self.lines@.len() && ls@.take(self.lines@.len() as int) =~= self.lines@, //@w @C03 #into_lines_keeps_lines
             r matches Ok(ls) ==> forall|i: int| self.lines@.len() <= i < ls@.len() ==> short_line(#[trigger] ls@[i], self.width), //@w @C02 @C11 #block_lines_fit_block
+            // the lines handed over carry every character the renderer holds, in order, once; only markers that no text line follows stay behind //@w
+            r matches Ok(ls) ==> self.flushable() ==> exists|rest: Seq<CItem<Vec<D::Annotation>>>| #[trigger] only_frags(rest) && ns(rl_flat(ls@)) + rest =~= self.rview(), //@w @C03 @C09 #renderer_text_reaches_its_lines
     { let mut this = self;
         this.flush_wrapping()?;
+        proof { //@w
+            if self.flushable() { //@w
+                let rest = flat(this.pending_frags@); //@w
+                lemma_no_str_flat(this.pending_frags@); //@w
+                assert(only_frags(rest) && ns(rl_flat(this.lines@)) + rest =~= self.rview()); //@w
+            } //@w
+        } //@w
         Ok(this.lines)
     }
 //@end
@@ -819,6 +951,7 @@ impl<D: TextDecorator> SubRenderer<D> {
 //@sub /l\.to_string\(\)/ ==> border_to_string(&l)
 //@sub /RenderLine::Text\(mut tline\) => \{/ ==> RenderLine::Text(tline0) => {\n                        let mut tline = tline0;
 //@auto C01 C07 C02
+    #[verifier::rlimit(100)] //@w
     fn append_subrender(&mut self, other: Self, prefixes0: Prefixes) -> (r: Result<()>)
         requires old(self).sr_inv(), other.sr_inv(), tag_ok::<Vec<D::Annotation>>(), //@w
             other.options == old(self).options, //@w
@@ -832,11 +965,16 @@ impl<D: TextDecorator> SubRenderer<D> {
             final(self).same_stacks(old(self)) && final(self).same_config(old(self)), //@w @C09 #append_frame
             old(self).options.allow_width_overflow ==> r.is_ok(), //@w @C11
             final(self).lines@.len() >= old(self).lines@.len() && final(self).lines@.take(old(self).lines@.len() as int) =~= old(self).lines@, //@w @C03 #append_keeps_lines
+            // every line of the nested renderer is appended once, in order, behind its prefix; nothing the parent held is lost (C03, C07, C16) //@w
+            r.is_ok() && old(self).flushable() && other.flushable() ==> exists|ol: Seq<RenderLine<Vec<D::Annotation>>>, rest: Seq<CItem<Vec<D::Annotation>>>, tg: Vec<D::Annotation>| //@w @C03 @C07 @C16 #nested_lines_appended_with_prefixes
+                #[trigger] sub_appended(old(self).rview(), final(self).rview(), other.rview(), ol, rest, prefixes0, tg, old(self).ann_stack@), //@w @C03 @C07 @C16 #nested_lines_appended_with_prefixes
     {
         use self::TaggedLineElement::Str;
 
         self.flush_wrapping()?;
         let tag = self.ann_stack.clone();
+        let ghost v0 = self.rview(); //@w
+        let ghost pos0 = prefixes0.pos(); //@w
 
         let mut prefixes = prefixes0;
         let olines = ll_into_vec(other.into_lines()?);
@@ -845,8 +983,11 @@ impl<D: TextDecorator> SubRenderer<D> {
                 if i < other.lines@.len() { assert(olines@.take(other.lines@.len() as int)[i] == olines@[i]); assert(olines@[i] == other.lines@[i]); } else { assert(short_line(olines@[i], other.width)); } //@w
             } //@w
         } //@w
+        proof { assert(olines@.take(0) =~= Seq::<RenderLine<Vec<D::Annotation>>>::empty()); lemma_flat_empty_te::<Vec<D::Annotation>>(); } //@w
         for line in it: olines
             invariant //@w
+                self.wrapping is None, prefixes.pos() == pos0 + it.index@, pos0 == prefixes0.pos(), //@w
+                self.rview() =~= v0 + ns(pref_view(olines@.take(it.index@), prefixes0, pos0, tag)), //@w @C03 @C07 @C16 #nested_lines_appended_with_prefixes
                 it.seq() == olines@, tag_ok::<Vec<D::Annotation>>(), self.sr_inv(), //@w
                 self.same_stacks(old(self)) && self.same_config(old(self)), tag@ == old(self).ann_stack@, //@w
                 lines_ok(olines@, other.width, loose(other.options)), //@w
@@ -892,8 +1033,24 @@ impl<D: TextDecorator> SubRenderer<D> {
             // bullet or number then blank indentation), tagged with the enclosing annotations (C07, C09) //@w
             assert(newline matches RenderLine::Text(t) && t.wf() && t.len == sw(prefix@) + (match olines@[it.index@] { RenderLine::Text(o) => o.len as int, RenderLine::Line(b) => b.w as int })); //@w @C07 @C02 #prefixed_line_width
             assert(olines@[it.index@] matches RenderLine::Text(o) ==> (newline matches RenderLine::Text(t) && flat(t.v@) =~= flat_str(prefix@, tag) + flat(o.v@))); //@w @C07 @C09 @C03 #every_line_gets_its_prefix
+            assert(newline matches RenderLine::Text(t) && flat(t.v@) =~= pref_elt(olines@[it.index@], prefix@, tag)); //@w @C07 @C03 @C16 #every_line_gets_its_prefix
+            let ghost vk = self.rview(); //@w
             self.add_line(newline);
+            proof { //@w
+                let k = it.index@; //@w
+                assert(olines@.take(k + 1) =~= olines@.take(k).push(olines@[k])); //@w
+                assert(olines@.take(k + 1).drop_last() =~= olines@.take(k)); //@w
+                lemma_ns_concat(pref_view(olines@.take(k), prefixes0, pos0, tag), pref_elt(olines@[k], prefixes0.at(pos0 + k), tag)); //@w
+                assert(self.rview() =~= vk + ns(rl_elt(newline))); //@w
+            } //@w
         }
+        proof { //@w
+            assert(olines@.take(olines@.len() as int) =~= olines@); //@w
+            if old(self).flushable() && other.flushable() { //@w
+                let rest = choose|rest: Seq<CItem<Vec<D::Annotation>>>| #[trigger] only_frags(rest) && ns(rl_flat(olines@)) + rest =~= other.rview(); //@w
+                assert(sub_appended(old(self).rview(), self.rview(), other.rview(), olines@, rest, prefixes0, tag, old(self).ann_stack@)); //@w
+            } //@w
+        } //@w
 
         Ok(())
     }
@@ -910,6 +1067,8 @@ impl<D: TextDecorator> SubRenderer<D> {
             old(self).options.allow_width_overflow ==> r.is_ok(), //@w @C11
             final(self).lines@.len() >= old(self).lines@.len() && final(self).lines@.take(old(self).lines@.len() as int) =~= old(self).lines@, //@w @C03
             r.is_ok() ==> final(self).wrapping.is_none() && final(self).lines@.last() == RenderLine::Line(line), //@w @C05 #rule_added_last
+            // a rule adds no document content and loses none: the open block is closed first, pending markers stay pending //@w
+            r.is_ok() && old(self).flushable() ==> final(self).rview() =~= old(self).rview(), //@w @C03 @C14 #rule_keeps_view
     {
         self.flush_wrapping()?;
         self.add_line(RenderLine::Line(line));
@@ -927,6 +1086,8 @@ impl<D: TextDecorator> SubRenderer<D> {
             old(self).options.allow_width_overflow ==> r.is_ok(), //@w @C11
             final(self).lines@.len() >= old(self).lines@.len() && final(self).lines@.take(old(self).lines@.len() as int) =~= old(self).lines@, //@w @C03
             r.is_ok() ==> final(self).wrapping.is_none() && (final(self).lines@.last() matches RenderLine::Line(b) && b.w == old(self).width), //@w @C05 #full_width_rule_added
+            // a rule adds no document content and loses none: the open block is closed first, pending markers stay pending //@w
+            r.is_ok() && old(self).flushable() ==> final(self).rview() =~= old(self).rview(), //@w @C03 @C14 #rule_keeps_view
     {
         self.flush_wrapping()?;
         self.add_line(RenderLine::Line(BorderHoriz::new(
@@ -948,6 +1109,8 @@ impl<D: TextDecorator> SubRenderer<D> {
             old(self).options.allow_width_overflow ==> r.is_ok(), //@w @C11
             final(self).lines@.len() >= old(self).lines@.len() && final(self).lines@.take(old(self).lines@.len() as int) =~= old(self).lines@, //@w @C03
             r.is_ok() ==> final(self).wrapping.is_none() && (final(self).lines@.last() matches RenderLine::Line(b) && b.w == width), //@w @C05 #rule_of_given_width_added
+            // a rule adds no document content and loses none: the open block is closed first, pending markers stay pending //@w
+            r.is_ok() && old(self).flushable() ==> final(self).rview() =~= old(self).rview(), //@w @C03 @C14 #rule_keeps_view
     {
         self.flush_wrapping()?;
         self.add_line(RenderLine::Line(BorderHoriz::new(
@@ -1124,6 +1287,7 @@ impl<D: TextDecorator> SubRenderer<D> {
 //@sub 2 /s\.as_deref\(\)\.unwrap_or\(text\)/ ==> opt_as_deref_or(&s, text)
 //@sub /filter\(srctext\)/ ==> filter.call(srctext)
 //@auto C01 C09
+    #[verifier::rlimit(100)] //@w
     fn add_inline_text(&mut self, text: &str) -> (r: Result<()>)
         requires old(self).sr_inv(), old(self).room(), short(text@), tag_ok::<Vec<D::Annotation>>(), //@w
         ensures //@w
@@ -1138,6 +1302,11 @@ impl<D: TextDecorator> SubRenderer<D> {
             // L2 (C03, C09, C16): the open block gains exactly the kept characters of the text as it comes out of the filter stack, //@w
             // in order and tagged with the annotation stack; nothing else reaches it //@w
             r.is_ok() ==> emitted(old(self).block_base(), old(self).ign(), final(self).wrapping, old(self).text_filter_stack@, text@, old(self).ann_stack@, old(self).pre_depth > 0), //@w @C03 @C09 @C16 #inline_text_reaches_block_verbatim
+            // inline text inside an open block touches neither the finished lines nor the pending markers //@w
+            !old(self).at_block_end ==> final(self).lines@ == old(self).lines@ && final(self).pending_frags@ == old(self).pending_frags@, //@w @C03 @C14 #inline_text_only_touches_block
+            // L3: what the renderer holds afterwards is what it held before followed by those characters; nothing before them is lost, duplicated or reordered //@w
+            r.is_ok() && !(old(self).ign() && all_ws(text@)) && (old(self).at_block_end ==> old(self).flushable()) ==> //@w @C03 @C09 #inline_text_appended_to_view
+                emitted_view(old(self).rview(), final(self).rview(), old(self).text_filter_stack@, text@, old(self).ann_stack@, old(self).pre_depth > 0), //@w @C03 @C09 #inline_text_appended_to_view
     {
         html_trace!("add_inline_text({}, {})", self.width, text);
         if !self.ws_mode().preserve_whitespace()
@@ -1150,12 +1319,15 @@ impl<D: TextDecorator> SubRenderer<D> {
         if self.at_block_end {
             self.start_block()?;
         }
+        let ghost mid_lines = self.lines@; //@w
+        let ghost mid_pf = self.pending_frags@; //@w
         let mut s: Option<String> = None;
         // Do any filtering of the text
         for filter in it: &self.text_filter_stack
             invariant //@w
                 (match s { Some(x) => x@, None => text@ }) == filt(self.text_filter_stack@, it.index@, text@), //@w @C16 #filters_applied_in_order
                 !old(self).at_block_end ==> self.wrapping == old(self).wrapping, old(self).at_block_end ==> self.wrapping is None, //@w
+                self.lines@ == mid_lines && self.pending_frags@ == mid_pf, //@w
                 self.sr_inv(), self.same_stacks(old(self)) && self.same_config(old(self)) && self.decorator == old(self).decorator, //@w
                 self.wtotal() <= old(self).wtotal() || self.wtotal() <= self.width, //@w
                 self.lines@.len() >= old(self).lines@.len() && self.lines@.take(old(self).lines@.len() as int) =~= old(self).lines@, //@w
@@ -1198,6 +1370,13 @@ impl<D: TextDecorator> SubRenderer<D> {
         wrapping.add_text(filtered_text, ws_mode, main_tag, cont_tag)?;
         proof { //@w
             assert(appended_b(base, wrapping.text@, wrapping.line.v@, wrapping.word.v@, kept(filtered_text@), *main_tag, *cont_tag)); //@w
+            let acc = choose|acc: Seq<CItem<Vec<D::Annotation>>>| #[trigger] tagged_by(acc, kept(filtered_text@), *main_tag, *cont_tag) && all_ns(wrapping.text@, wrapping.line.v@, wrapping.word.v@) =~= base + acc; //@w
+            if old(self).at_block_end ==> old(self).flushable() { //@w
+                let v_mid = ns(rl_flat(mid_lines)) + flat(mid_pf) + base; //@w
+                assert(v_mid =~= old(self).rview()); //@w @C03 @C09 #inline_text_appended_to_view
+                assert(self.rview() =~= old(self).rview() + acc); //@w @C03 @C09 #inline_text_appended_to_view
+                assert(tagged_by(acc, kept(filtered_text@), *main_tag, *cont_tag) && self.rview() =~= old(self).rview() + acc); //@w
+            } //@w
         } //@w
         Ok(())
     }
